@@ -6,7 +6,7 @@
    file ms  : the concatenated records of ms, record = what dump_msg returns;
    complete ms k : the messages of ms whose records end at or before octet k of file ms. *)
 From Coq Require Import ZArith List.
-From OBB Require Import Gen.TrxdConst Model.Trxd Model.Dump Proofs.TrxdTx Proofs.TrxdRx Proofs.TrxdRxRT Proofs.DumpP.
+From OBB Require Import Gen.TrxdConst Model.Trxd Model.Dump Proofs.TrxdTx Proofs.TrxdRx Proofs.TrxdRxRT Proofs.DumpP Model.DumpHist Proofs.DumpHistP.
 Import ListNotations.
 Open Scope Z_scope.
 
@@ -122,3 +122,45 @@ Theorem c15_nonvacuous : Forall vmsg ex_ms /\ length (file ex_ms) = 788%nat /\ c
   /\ complete ex_ms 788 = ex_ms /\ complete ex_ms 452 = [] /\ complete ex_ms 453 = [inl ex_tx].
 Proof. exact (conj ex_valid ex_cuts). Qed.
 Print Assumptions c15_nonvacuous.
+
+(* ---- histories on ONE capture object: appends (DAppend), reads by index (DIndex) and full / sliced reads (DAll) in any order.
+   drun f ops = (file afterwards, answers); appended ops = the messages the history appended, in order ---- *)
+
+(* the capture always holds the initial messages followed by every appended one - reads change nothing *)
+Theorem c15_history_state : forall ops ms0, Forall vmsg (appended ops) ->
+  fst (drun (file ms0) ops) = file (ms0 ++ appended ops).
+Proof. exact hist_state. Qed.
+Print Assumptions c15_history_state.
+
+(* the operation following ANY history answers as it would on a capture holding exactly what was stored so far *)
+Theorem c15_history_answer : forall pre o post ms0, Forall vmsg (appended pre) ->
+  nth_error (snd (drun (file ms0) (pre ++ o :: post))) (length pre) = Some (snd (dstep (file (ms0 ++ appended pre)) o)).
+Proof. exact hist_answer. Qed.
+Print Assumptions c15_history_answer.
+
+(* hence random access after any mix of appends and reads: the i-th of everything stored so far, None beyond *)
+Theorem c15_history_index : forall pre i post ms0, Forall vmsg ms0 -> Forall vmsg (appended pre) ->
+  let ms := ms0 ++ appended pre in
+  let ans := nth_error (snd (drun (file ms0) (pre ++ DIndex i :: post))) (length pre) in
+  (0 <= i < Z.of_nat (length ms) -> exists m m', nth_error ms (Z.to_nat i) = Some m /\ ans = Some (OIndex (Ok (OMsg m'))) /\ cmsg m' = cmsg m) /\
+  (Z.of_nat (length ms) <= i -> ans = Some (OIndex (Ok ONone))).
+Proof. exact hist_index. Qed.
+Print Assumptions c15_history_index.
+
+(* and a full read after any history returns everything stored so far, in order *)
+Theorem c15_history_full : forall pre post ms0, Forall vmsg ms0 -> Forall vmsg (appended pre) ->
+  let ms := ms0 ++ appended pre in
+  exists ms', nth_error (snd (drun (file ms0) (pre ++ DAll None None :: post))) (length pre) = Some (OAll (Ok (PList ms'))) /\ map cmsg ms' = map cmsg ms.
+Proof. exact hist_full. Qed.
+Print Assumptions c15_history_full.
+
+(* non-vacuity: read, append, read the appended message by its index on the example capture *)
+Theorem c15_history_nonvacuous :
+  exists m, nth_error ex_ms 0 = Some m /\ Forall vmsg (appended [DIndex 0; DAppend m]) /\
+    (match nth_error (snd (drun (file ex_ms) ([DIndex 0; DAppend m] ++ DIndex 4 :: [DAll None None]))) 2 with
+     | Some (OIndex (Ok (OMsg m'))) => cmsg m' = cmsg m
+     | _ => False
+     end) /\
+    length (fst (drun (file ex_ms) [DIndex 0; DAppend m; DIndex 4])) = (length (file ex_ms) + length (rec_of m))%nat.
+Proof. exact hist_example. Qed.
+Print Assumptions c15_history_nonvacuous.
